@@ -164,6 +164,10 @@ pub struct St {
     /// flush() of the wrapped sink fails with an error of its own (nobody but a caller's flush may ever see it: the
     /// queuing sink's thread has no business flushing, and a flush failure is not a failure of a queued metric)
     pub flush_fails: bool,
+    /// flush() of the wrapped sink blocks until the gate is opened for good (`open_all`); `in_flush` counts the
+    /// callers currently inside it
+    pub flush_blocks: bool,
+    pub in_flush: usize,
     /// number of EXIT events in `log` (kept next to it: the "everything delivered?" predicates are evaluated at every poll)
     pub n_exit: usize,
     pub log: Vec<Ev>,
@@ -181,7 +185,7 @@ pub struct Shared {
 
 impl Shared {
     pub fn new(gated: bool) -> Arc<Shared> {
-        Arc::new(Shared { st: Mutex::new(St { flush_like_buffered_sink: false, flush_fails: false, n_exit: 0, log: Vec::new(), permits: 0, open: !gated, in_call: 0, sleep_us: (0, 0) }), cv: Condvar::new() })
+        Arc::new(Shared { st: Mutex::new(St { flush_like_buffered_sink: false, flush_fails: false, flush_blocks: false, in_flush: 0, n_exit: 0, log: Vec::new(), permits: 0, open: !gated, in_call: 0, sleep_us: (0, 0) }), cv: Condvar::new() })
     }
     pub fn push(&self, e: Ev) {
         let mut g = self.st.lock().unwrap_or_else(|e| e.into_inner());
@@ -282,6 +286,14 @@ impl MetricSink for GatedSink {
 impl GatedSink {
     fn flush_impl(&self) -> io::Result<()> {
         let mut g = self.sh.st.lock().unwrap_or_else(|e| e.into_inner());
+        if g.flush_blocks {
+            g.in_flush += 1;
+            while !g.open {
+                g = self.sh.cv.wait(g).unwrap_or_else(|e| e.into_inner());
+            }
+            g.in_flush -= 1;
+            return Ok(());
+        }
         if g.flush_fails {
             return Err(io::Error::new(io::ErrorKind::BrokenPipe, "scripted-flush-failure"));
         }
